@@ -30,12 +30,16 @@ def run_bw(cwd, args, stdin=None, env=None, timeout=60, prefix=None):
     if env:
         e.update(env)
     cmd = (prefix or []) + [K.BWBIN] + args
-    try:
-        p = subprocess.run(cmd, cwd=cwd, input=stdin if stdin is not None else "", env=e, stdout=subprocess.PIPE,
-                           stderr=subprocess.PIPE, text=True, timeout=timeout)
-        return {"exit": p.returncode, "stdout": p.stdout, "stderr": p.stderr}
-    except subprocess.TimeoutExpired:
-        return {"exit": None, "stdout": "", "stderr": "", "timeout": True}
+    # a run that exceeds its time limit is repeated once with five times the limit before it counts as a hang
+    # (sixteen binaries run side by side; a busy machine must not look like a hanging blockwatch)
+    for limit in (timeout, timeout * 5):
+        try:
+            p = subprocess.run(cmd, cwd=cwd, input=stdin if stdin is not None else "", env=e, stdout=subprocess.PIPE,
+                               stderr=subprocess.PIPE, text=True, timeout=limit)
+            return {"exit": p.returncode, "stdout": p.stdout, "stderr": p.stderr}
+        except subprocess.TimeoutExpired:
+            continue
+    return {"exit": None, "stdout": "", "stderr": "", "timeout": True}
 
 
 def classify_run_error(msg):
